@@ -9,8 +9,8 @@
                                                            returned number of new extents)
      UDFFileEntry.remove_file_ident_desc_by_name(n,lbs) -> udfdir_remove (first match of fi == name over ALL
                                                            fi_descs, parent included; the is_dir() checks;
-                                                           info_len, alloc_descs[0]; log_block_recorded is
-                                                           NOT assigned; returned number of freed extents)
+                                                           info_len, log_block_recorded, alloc_descs[0];
+                                                           returned number of freed extents)
      UDFFileEntry.track_file_ident_desc                 -> udfdir_track (append only)
      UDFFileEntry.set_data_location(cur, start)         -> udfdir_data_blocks (the single descriptor is put
                                                            at start; it spans ceiling_div(ad_len, 2048))
@@ -90,7 +90,8 @@ Definition udfdir_remove (lbs : Z) (st : udfdir) (name : list Z) (child_nonempty
       then None
       else
         let '(info', delta) := fid_remove lbs (ud_info_len st) (zlen (fi_name this_desc)) in
-        Some (mk_udfdir rest info' info' (ud_lbr st), delta)
+        let new_num_extents := ceiling_div info' lbs in       (* self.log_block_recorded = new_num_extents *)
+        Some (mk_udfdir rest info' info' new_num_extents, delta)
   end.
 
 (* track_file_ident_desc (parse time): append, nothing else *)
@@ -159,7 +160,10 @@ Definition udfdir_tag_locs (start : Z) (st : udfdir) : list Z :=
   map (Z.add start) (fid_locations 2048 (udfdir_lens st)).
 
 (* what the bookkeeping does not determine, per descriptor: (encoding 8/16, ICB new_location,
-   ICB tag_location) *)
+   ICB tag_location).  For the parent FID _udf_assign_extents assigns only icb.log_block_num (the
+   relative block of the File Entry of the containing directory, the root being its own parent) and
+   leaves impl_use zero: that is the input (_, 0, parent_block), since set_icb(0, b) writes six
+   zero bytes of impl_use and log_block_num = b. *)
 Fixpoint udfdir_records (ds : list fident) (locs : list Z) (ext : list (Z * Z * Z))
   : option (list (list Z)) :=
   match ds, locs, ext with
